@@ -16,6 +16,7 @@ let parse_op (s : string) : op =
   | ["msc"; x; y; v] -> MapSet (z x, z y, z v)
   | ["mgr"; x; y; w; h] -> MapGetRect (z x, z y, z w, z h)
   | ["msr"; x; y; rows] -> MapSetRect (z x, z y, rows_of rows)
+  | ["mgp"; x; y; w; h] -> MapGetRectPx (z x, z y, z w, z h)
   | ["fg"; id; fl] -> FlagGet (z id, z fl)
   | ["fs"; id; fl] -> FlagSet (z id, z fl)
   | ["fc"; id; fl] -> FlagClear (z id, z fl)
